@@ -30,6 +30,16 @@ def run(ctx):
     t1 = os.path.join(td, 'tlc.ndjson')
     rc.run_reg(ctx, vh, t1, stacks='mem', scen=sp)
     traces.append(t1)
+    # histories without the snapshots: a snapshot lists and resolves everything after every call, which would
+    # refresh whatever an implementation keeps between calls (a cached listing, say) before it could go stale;
+    # here only the calls of the history itself look at the registry (tag churn: push / delete tag / list / resolve)
+    tagwalks = rc.gen_scenarios(ctx, 150 if quick else 3000, depth=14, cfg='OciRegistryGenTags.cfg')
+    t2 = os.path.join(td, 'tlc-nosnap.ndjson')
+    rc.run_reg(ctx, vh, t2, stacks='mem', scen=rc.write_scenarios(ctx, tagwalks + scen[:200 if quick else 5000], 'nosnap.jsonl'), extra=['-snap=false'])
+    traces.append(t2)
+    t3 = os.path.join(td, 'rand-nosnap.ndjson')
+    rc.run_reg(ctx, vh, t3, stacks='mem', n=100 if quick else 3000, steps=40, seed=ctx.seed * 1000 + 500, extra=['-snap=false'])
+    traces.append(t3)
     nrand = 150 if quick else 6000
     per = 1500
     i = 0
